@@ -1,6 +1,6 @@
 """Reference statement of the Japanese combinatory schemas and unary labels (C04), over refcat tuples."""
 from vlib import refcat, refunify
-from vlib.schemas_en import is_inst, is_modifier
+from vlib.schemas_en import is_inst, is_modifier, forced_bindings
 
 P = refcat.ref_parse
 
@@ -72,7 +72,9 @@ def justified(x, y, res):
     # shared variable b may be taken from either occurrence: check against both instantiation sources
     b2 = dict(b)
     b2.update({k: v[0] for k, v in by.items()})
-    if is_inst(cat, want, feats) or is_inst(cat, build(b2, x, y), feats):
+    # a variable triple that meets one and the same concrete triple at every occurrence in the matched parts is that triple
+    forced = forced_bindings(bx['b'][0], by['b'][0]) if bx.get('b') and by.get('b') else {}
+    if is_inst(cat, want, feats, forced) or is_inst(cat, build(b2, x, y), feats, forced):
         return True, ''
     return False, f'features of the result do not come from the schema parts/inputs (schema: {refcat.ref_print(want)})'
 
